@@ -93,7 +93,7 @@ def _job(job):
             got = (tok.category.name, tok.export())
             tok2 = imp_shared.import_token(t)
             if (tok2.category.name, tok2.export()) != got:
-                acc.violation(Viol('importer-history', 'outcome-depends-on-tokens-parsed-before', case, got, (tok2.category.name, tok2.export())))
+                acc.violation(Viol('importer-history', 'outcome-depends-on-tokens-parsed-before', dict(case, slice=[lo, hi], tier=tier), got, (tok2.category.name, tok2.export())))
         except Exception as e:  # noqa
             acc.violation(Viol('any-cell', 'import-of-the-cell-raises', case, 'a token', f'{type(e).__name__}: {str(e)[:80]}'))
             continue
@@ -174,6 +174,9 @@ def run(ctx):
 
 def replay(case):
     acc = Acc()
+    if 'slice' in case:
+        d = _job((case['header'], case['slice'][0], case['slice'][1], case.get('tier', 'quick')))
+        return [v for v in d.viol if v['cls'] == 'importer-history']
     if 'cell' in case:
         C = corpus('thorough')
         i = C.index(case['cell']) if case['cell'] in C else None
